@@ -1,39 +1,53 @@
 import VaxisModel.Lemmas.ConcShutdown
 
-/-! F53 (recorded): `Close()` on the main goroutine while the event queue is full and input is
-pending.  The application is not receiving events (its goroutine is inside `Close`), the input
-goroutine is blocked in `PostEventBlocking`, the channel from the parser fills up, the parser blocks
-in `emit` and never looks at the close signal; `WaitClose` waits for ever.  Replayed on the real
-code by the harness op `fullclose`. -/
+/-! F53 (**fixed**, /repo "fix: Suspend and Close no longer wait for a receiver of the parser's
+channel" and "fix: PostEventBlocking returns once Close has completed"): `Close()` on the main
+goroutine while the event queue is full and input is pending.  The application is not receiving
+events (its goroutine is inside `Close`), the input goroutine is blocked in `PostEventBlocking`, the
+channel from the parser fills up, the parser blocks in `emit` and never looked at the close signal;
+`WaitClose` waited for ever.  `WaitClose` now discards what the parser still emits, so `Close`
+returns; and once `chQuit` is closed the blocked post gives up, so the input goroutine ends too.
+Harness ops `fullclose`, `forced kind=full`; corpus/C10/F53-fullclose.ops. -/
 namespace VaxisModel.Witness.F53
 open VaxisModel.Model.Conc VaxisModel.Lemmas.ConcShutdown
 
 /-- Queue of capacity 2, full; four key presses pending; the application has stopped consuming. -/
 def s0 : SSys := { qcap := 2, queueLen := 2, consumer := false, inbuf := [some 1, some 1, some 1, some 1] }
 
+/-- The schedule of the old witness. -/
 def witness : List SLabel :=
-  [.parser, .parser, .inputRecv,          -- first key: parsed, handed over; the goroutine now wants to post
+  [.parser, .parser, .input .recv,        -- first key: parsed, handed over; the goroutine now wants to post
    .parser, .parser, .parser, .parser, .parser, .parser,   -- keys two and three fill the channel
    .parser, .parser,                      -- key four: the parser is inside emit
    .callClose, .caller 0, .caller 0, .caller 0, .caller 0, .caller 0,   -- Close: flag, quit event, suspended, signal, DA1; then wait
    .termReply]
 
-theorem reaches_stuck_state :
+def continuation : List SLabel :=
+  [.drain 0, .parser, .parser,            -- room: key four emitted, the parser sees the close signal
+   .drain 0, .parser, .parser,            -- EOF emitted, channel closed, `closed` sent
+   .caller 0, .caller 0,                  -- WaitClose returns, close(chQuit)
+   .input .quit, .input .step,            -- the blocked post gives up, the sequence is handled
+   .input .recv, .input .quit, .input .step,   -- what is left in the channel
+   .input .recv]                          -- EOF (or the closed channel): the input goroutine returns
+
+theorem reaches_old_stuck_state :
     (match srun s0 witness with
-     | some s => s.stuck && !s.final && s.callers == [{ pc := .waitClosed }] && s.ipc == .posting 1 && s.ppc == .emitting 1
+     | some s => s.callers == [{ pc := .waitClosed }] && s.ipc == .posting 1 && s.ppc == .emitting 1 && s.seqs.length == 2 &&
+                 s.queueLen == s.qcap && (snext s (.input .step)).isNone && (snext s (.drain 0)).isSome
      | none => false) = true := by decide
 
-theorem close_never_returns :
-    ∃ s, srun s0 witness = some s ∧ s.final = false ∧
-      ∀ l ls, l.internal = true → srun s (l :: ls) = none := by
-  cases h : srun s0 witness with
-  | none => exact absurd h (by decide)
-  | some s =>
-    have hs : s.stuck = true ∧ s.final = false := by
-      have := reaches_stuck_state
-      simp only [h] at this
-      simp only [Bool.and_eq_true, Bool.not_eq_true'] at this
-      exact ⟨this.1.1.1.1, this.1.1.1.2⟩
-    exact ⟨s, rfl, hs.2, fun l ls hl => stuck_forever s hs.1 l ls hl⟩
+/-- `Close` returns and nothing is left: the state is final and at rest, the queue still full, nobody
+ever consumed. -/
+theorem close_returns :
+    (match srun s0 (witness ++ continuation) with
+     | some s => s.final && s.quiescent && s.quitCloses == 1 && s.queueLen == s.qcap && !s.consumer
+     | none => false) = true := by decide
+
+/-- Without the second repair the input goroutine would stay blocked: before `chQuit` is closed the
+`quit` arm of the post is not enabled. -/
+theorem post_gives_up_only_after_quit :
+    (match srun s0 witness with
+     | some s => (snext s (.input .quit)).isNone
+     | none => false) = true := by decide
 
 end VaxisModel.Witness.F53
